@@ -74,6 +74,14 @@ pub fn op_rseq(a: &[&str]) -> String {
         let name = format!("range{}", w);
         let h = hex(&b);
         if !op_verify(&[&name, &h]).starts_with('A') { return format!("variant-mismatch:seq-verify:{}:{}", i, w) }
+        // a rejected proof in between (undecodable point / non-canonical scalar / wrong statement) leaves nothing
+        // behind: the honest proof still verifies afterwards
+        for (k, off) in [264usize, 264 + 64, 264 + 128, 264 + 224, b.len() - 32, 0].iter().enumerate() {
+            let mut m = b.clone();
+            for x in m[*off..*off + 32].iter_mut() { *x = 0xff; }
+            if op_verify(&[&name, &hex(&m)]).starts_with('A') { return format!("variant-mismatch:seq-malformed-accepted:{}:{}:{}", i, w, k) }
+            if !op_verify(&[&name, &h]).starts_with('A') { return format!("variant-mismatch:seq-verify-after-rejection:{}:{}:{}", i, w, k) }
+        }
         built.push((name, h));
     }
     for (i, (name, h)) in built.iter().enumerate().rev() {
